@@ -113,6 +113,41 @@ Definition empty_doc (mime : str) : odfdoc :=
         (Elem (q_off "master-styles") [] []) (Elem (q_off "body") [] []).
 
 (* __loadxmlparts: settings.xml, meta.xml, content.xml, styles.xml - those that are there *)
-Definition load_doc (mime : str) (settings meta content styles : option node) : odfdoc :=
+Definition load_parts (mime : str) (settings meta content styles : option node) : odfdoc :=
   snd (load_part PnStyles (load_part PnContent (load_part PnMeta (load_part PnSettings (s0, empty_doc mime) settings) meta) content) styles).
+
+(* __dropRepeatedAutomaticStyles: of the named children of office:automatic-styles, one that is identical to the first
+   child of its name and element type is dropped (its serialisation is compared; here: the trees) *)
+Fixpoint node_eqb (a b : node) : bool :=
+  match a, b with
+  | TextN x, TextN y | CDataN x, CDataN y => str_eqb x y
+  | Elem q1 a1 k1, Elem q2 a2 k2 =>
+      qname_eqb q1 q2 &&
+      (fix atts (x y : list (qname * str)) : bool :=
+         match x, y with [], [] => true | (n1, v1) :: x', (n2, v2) :: y' => qname_eqb n1 n2 && str_eqb v1 v2 && atts x' y' | _, _ => false end) a1 a2 &&
+      (fix kids (x y : list node) : bool :=
+         match x, y with [], [] => true | c1 :: x', c2 :: y' => node_eqb c1 c2 && kids x' y' | _, _ => false end) k1 k2
+  | _, _ => false
+  end.
+Fixpoint seen_get (q : qname) (n : str) (seen : list (qname * str * node)) : option node :=
+  match seen with [] => None | (q', n', t) :: r => if qname_eqb q' q && str_eqb n' n then Some t else seen_get q n r end.
+Fixpoint dedupe (seen : list (qname * str * node)) (ks : list node) : list node :=
+  match ks with
+  | [] => []
+  | (Elem q a _ as k) :: r =>
+      match get_att q_stylename a with
+      | Some n => match seen_get q n seen with
+                  | Some t => if node_eqb t k then dedupe seen r else k :: dedupe seen r
+                  | None => k :: dedupe ((q, n, k) :: seen) r
+                  end
+      | None => k :: dedupe seen r
+      end
+  | k :: r => k :: dedupe seen r
+  end.
+Definition finish (d : odfdoc) : odfdoc :=
+  mkDoc (d_mime d) (d_meta d) (d_scripts d) (d_ffd d) (d_settings d) (d_styles d)
+        (match d_auto d with Elem q a ks => Elem q a (dedupe [] ks) | t => t end) (d_master d) (d_body d).
+
+Definition load_doc (mime : str) (settings meta content styles : option node) : odfdoc :=
+  finish (load_parts mime settings meta content styles).
 End Load.
